@@ -229,7 +229,7 @@ pub fn add_spec_contents(pool: &mut Pool, rng: &mut Rng, per_len: usize, canonic
     let all = crate::fields::specs();
     for sp in all.iter().filter(|s| s.members.is_empty()) {
         for alt in &sp.alts {
-            for (len, reps) in [(Len::Min, 1usize), (Len::Max, 2), (Len::Rand, per_len)] {
+            for (len, reps) in [(Len::Min, 1usize), (Len::Max, 6), (Len::Rand, per_len)] {
                 for _ in 0..reps {
                     for opt in [Some(true), Some(false), None] {
                         let mut g = Gen { rng, len, violate: None, counter: 0, opt_all: opt, ccy: None };
@@ -238,10 +238,22 @@ pub fn add_spec_contents(pool: &mut Pool, rng: &mut Rng, per_len: usize, canonic
                         if c.is_empty() || c.split('\n').any(|l| l.starts_with(':') || l.starts_with('-')) || c.contains("-}") || c.contains('{') || c.contains('}') {
                             continue;
                         }
-                        if !crate::fields::documented(&all, sp, &c) {
+                        // valid by the documented format under the strict reading of `nd` (decided independently of the library)
+                        crate::fmt::STRICT_ND.store(true, std::sync::atomic::Ordering::Relaxed);
+                        let doc = crate::fields::documented(&all, sp, &c);
+                        crate::fmt::STRICT_ND.store(false, std::sync::atomic::Ordering::Relaxed);
+                        if !doc {
                             continue;
                         }
-                        let crate::fields::Outcome::Ok { ser, .. } = crate::fields::parse_named(&sp.name, &c) else { continue };
+                        let crate::fields::Outcome::Ok { ser, .. } = crate::fields::parse_named(&sp.name, &c) else {
+                            // documented but rejected by the field parser: kept as written, so that the message-level oracle
+                            // reports the rejection instead of the generator silently avoiding it
+                            let v = pool.by_tag.entry(sp.tag.clone()).or_default();
+                            if canonical && v.len() < 600 && !v.contains(&c) && !c.split('\n').any(|l| l.starts_with(':') || l.starts_with('-')) {
+                                v.push(c);
+                            }
+                            continue;
+                        };
                         // the library's own canonical spelling of this content (what it writes back), when asked for
                         let c = if canonical {
                             let c2 = ser.splitn(3, ':').nth(2).unwrap_or("").to_string();
